@@ -446,6 +446,7 @@ func c14Gen(r *hx.Rng, n int, tier string) []string {
 	sites = append(sites, directedParams(pstep)...)
 	sites = append(sites, directedDeriver(pstep)...)
 	sites = append(sites, directedJSONText()...)
+	sites = append(sites, directedKeySizes()...)
 	lines = append(lines, sites...)
 	n += len(sites) // the random part keeps its size
 	for len(lines) < n {
